@@ -35,6 +35,14 @@ type c17World struct {
 func (c *c17World) addPending(m *api.Message) { c.pending = append(c.pending, m) }
 
 //go:norace
+func (c *c17World) nthPending(n int) *api.Message {
+	if len(c.pending) <= n {
+		return nil
+	}
+	return c.pending[n]
+}
+
+//go:norace
 func (c *c17World) firstPending() *api.Message {
 	if len(c.pending) == 0 {
 		return nil
@@ -83,9 +91,12 @@ func newC17World() *c17World {
 	d.AddFunctionType(model.FunctionTypeDeviceDiagnosisHeartbeatData, true, false)
 	ap := c.w.L.FeatureByAddress(srvAddr("L2lc", true))
 	ap.SetData(fnLimit, limitList(1, 1, 2))
+	// two applications have to approve (the stack then keeps a tally per write), two writes of B are waiting
 	_ = ap.AddWriteApprovalCallback(func(m *api.Message) { c.addPending(m) })
+	_ = ap.AddWriteApprovalCallback(func(m *api.Message) {})
 	c.b.Deliver(c.b.BindCall(cliAddr("B", "e1f1", true), srvAddr("L2lc", true), model.FeatureTypeTypeLoadControl))
 	c.b.Deliver(c.b.Datagram(cliAddr("B", "e1f1", true), srvAddr("L2lc", true), model.CmdClassifierTypeWrite, true, nil, model.CmdType{LoadControlLimitListData: limitList(2, 1, 2)}))
+	c.b.Deliver(c.b.Datagram(cliAddr("B", "e1f1", true), srvAddr("L2lc", true), model.CmdClassifierTypeWrite, true, nil, model.CmdType{LoadControlLimitListData: limitList(3, 1, 2)}))
 	c.extra = spine.NewEntityLocal(c.w.L, model.EntityTypeTypeCEM, spine.NewAddressEntityType([]uint{4}), 4*time.Second)
 	c.extra.GetOrAddFeature(model.FeatureTypeTypeMeasurement, model.RoleTypeServer)
 	if ctr, err := c.cli.RequestRemoteData(fnLimit, nil, nil, c.a.Dev.FeatureByAddress(cliAddr("A", "e1f4", true))); err == nil && ctr != nil {
@@ -167,9 +178,21 @@ func c17Ops() []c17Op {
 		}},
 		{"local:SubscribeToRemote", func(c *c17World) { _, _ = c.cli.SubscribeToRemote(cliAddr("A", "e1f4", true)) }},
 		{"local:approve-pending-write", func(c *c17World) {
+			// both applications approve the first of the two waiting writes
 			if m := c.firstPending(); m != nil {
 				c.w.L.FeatureByAddress(srvAddr("L2lc", true)).ApproveOrDenyWrite(m, model.ErrorType{})
+				c.w.L.FeatureByAddress(srvAddr("L2lc", true)).ApproveOrDenyWrite(m, model.ErrorType{})
 			}
+		}},
+		{"local:approve-second-write-once", func(c *c17World) {
+			// one of the two applications approves the second waiting write (the tally stays open)
+			if m := c.nthPending(1); m != nil {
+				c.w.L.FeatureByAddress(srvAddr("L2lc", true)).ApproveOrDenyWrite(m, model.ErrorType{})
+			}
+		}},
+		{"local:approval-timeout-elapses", func(c *c17World) {
+			// the approval timeouts of the waiting writes fire while the other thread is at work
+			rt.Advance(15 * time.Second)
 		}},
 		{"local:heartbeat-stop+start", func(c *c17World) {
 			c.diag.HeartbeatManager().StopHeartbeat()
@@ -310,6 +333,10 @@ func c17Ops() []c17Op {
 	}
 }
 
+var c17Narrow = map[string]bool{"local:approve-second-write-once": true, "local:approval-timeout-elapses": true}
+var c17ApprovalGroup = map[string]bool{"local:approve-second-write-once": true, "local:approval-timeout-elapses": true, "local:approve-pending-write": true,
+	"local:RemoveRemoteDeviceConnection(B)": true, "B:write-unbound": true, "A:write": true, "A:entity-removed": true, "B:full-discovery-notify": true}
+
 func c17Scenarios(thorough bool) []*engine.SScenario {
 	ops := c17Ops()
 	mk := func(sel []int) *engine.SScenario {
@@ -348,6 +375,10 @@ func c17Scenarios(thorough bool) []*engine.SScenario {
 			// one connection delivers its messages one after the other: two inbound messages of the
 			// same peer are never processed concurrently
 			if ops[i].name[:2] == ops[j].name[:2] && (ops[i].name[:2] == "A:" || ops[i].name[:2] == "B:") {
+				continue
+			}
+			// the two operations around the approval timeout are paired with what touches pending writes only
+			if (c17Narrow[ops[i].name] && !c17ApprovalGroup[ops[j].name]) || (c17Narrow[ops[j].name] && !c17ApprovalGroup[ops[i].name]) {
 				continue
 			}
 			scs = append(scs, mk([]int{i, j}))
